@@ -77,7 +77,7 @@ __CAUGHT__ = Exception
 def __step__(k, loc, model): pass
 def __enter__(r): pass
 def __leave__(r): pass
-def __caught__(k, e): pass
+def __caught__(k, e, m=()): pass
 def __set_ie__(v): _rt.ignore_errors(v)
 def __cv__(c): return 0
 def __term__(mode): _side({"ev": "term", "mode": mode, "trace": _dump()})
